@@ -467,8 +467,8 @@ pub trait ArchDrv<W>: Sync {
     fn len(&self, w: &W) -> usize;
     fn is_empty(&self, w: &W) -> bool;
     fn capacity(&self, w: &W) -> usize;
-    /// `Archetype::version()` (public; opaque but comparable): the number in its Debug form.
-    fn version(&self, w: &W) -> u64;
+    /// `Archetype::version()` (public; opaque but comparable).
+    fn version(&self, w: &W) -> gecs::version::ArchetypeVersion;
     fn create(&self, w: &mut W, lvl: Lvl, p: &[u64]) -> Bits;
     fn create_lazy(&self, w: &mut W, p: &[u64], fail: bool) -> Bits;
     fn create_within(&self, w: &mut W, lvl: Lvl, p: &[u64]) -> Result<Bits, Vec<Obs>>;
@@ -519,10 +519,8 @@ where
     fn capacity(&self, w: &W) -> usize {
         w.archetype::<A>().capacity()
     }
-    fn version(&self, w: &W) -> u64 {
-        let s = format!("{:?}", w.archetype::<A>().version());
-        let digits: String = s.chars().filter(|c| c.is_ascii_digit()).collect();
-        digits.parse().unwrap_or(0)
+    fn version(&self, w: &W) -> gecs::version::ArchetypeVersion {
+        w.archetype::<A>().version()
     }
     fn create(&self, w: &mut W, lvl: Lvl, p: &[u64]) -> Bits {
         let e = match lvl {
